@@ -276,7 +276,12 @@ def replay_biogeme_derivatives(rec) -> dict:
             _cmp_vec(mism, path, p, 'gradient', out.gradient, g.sum(axis=0) / div)
             _cmp_vec(mism, path, p, 'hessian', out.hessian, h.sum(axis=0) / div)
             _cmp_vec(mism, path, p, 'bhhh', out.bhhh, bh.sum(axis=0) / div)
-        res = fn(np.array(x))
+        # the caller may keep ONE array and update it in place between calls (a hand-written line search does)
+        if p % 2 == 0 or 'x_shared' not in locals():
+            x_shared = np.array(x, dtype=float)
+        else:
+            x_shared[:] = x
+        res = fn(x_shared)
         n += 1
         _cmp_vec(mism, 'create_function', p, 'function', [res.function], [f.sum()])
         for k, nm in enumerate(names):
